@@ -211,3 +211,19 @@ def unescapeChars : List Nat → List Nat
   | [] => []
 
 end TantivyModel.Snip
+
+namespace TantivyModel.Snip
+
+/-- the (un-escaped) texts enclosed by the highlight tags of a rendering, in order; `cur` = the
+text collected since the last `<b>` (none outside a tag) -/
+def taggedAux : Option (List Nat) → List Html → List (List Nat)
+  | _, [] => []
+  | none, .open_ :: r => taggedAux (some []) r
+  | some acc, .close :: r => acc :: taggedAux none r
+  | some acc, .raw c :: r => taggedAux (some (acc ++ [c])) r
+  | some acc, .ent c :: r => taggedAux (some (acc ++ [c])) r
+  | cur, _ :: r => taggedAux cur r
+
+def tagged (h : List Html) : List (List Nat) := taggedAux none h
+
+end TantivyModel.Snip
